@@ -86,3 +86,36 @@ def elem_is(P, x, s, j):
 
 
 SPEC = {'same_elem': same_elem, 'elem_is': elem_is}
+
+
+# ---------------------------------------------------------------------------
+# f-strings that build NAMES (C04 / P2): f'__fpy_{type(e).__name__}' is evaluated exactly when every interpolated part
+# is `<expr>.__name__` of a class (a concrete str); every other f-string stays opaque (error messages)
+
+def try_fstring(P, node, fr):
+    import ast as _ast
+    parts = []
+    for v in node.values:
+        if isinstance(v, _ast.Constant) and isinstance(v.value, str):
+            parts.append(v.value)
+            continue
+        if not (isinstance(v, _ast.FormattedValue) and v.conversion == -1 and v.format_spec is None
+                and isinstance(v.value, _ast.Attribute) and v.value.attr == '__name__'):
+            return None
+        inner = v.value.value
+        # only `type(<name>).__name__` or `<name>.__name__`: no calls with effects
+        if isinstance(inner, _ast.Call) and isinstance(inner.func, _ast.Name) and inner.func.id == 'type' \
+                and len(inner.args) == 1 and isinstance(inner.args[0], _ast.Name) and not inner.keywords:
+            pass
+        elif isinstance(inner, _ast.Name):
+            pass
+        else:
+            return None
+        try:
+            s = P.ev(v.value, fr)
+        except Unsupported:
+            return None
+        if not isinstance(s, str):
+            return None
+        parts.append(s)
+    return ''.join(parts)
